@@ -273,6 +273,7 @@ fn main() {
             run_case(&mut run, t, false)
         }
     });
+    calgen::exhaustive_params(|t| run_case(&mut run, t, false));
     let exhaustive_cases = run.evaluations - corpus;
     let mut rng = Rng::new(args.seed);
     let nrand = if args.thorough() { 30000 } else { 2000 };
@@ -287,7 +288,7 @@ fn main() {
         run_case(&mut run, &t, false);
     }
     run.finish(
-        "corpus (pinned quil-rs source-map test, known-class witnesses); exhaustive: one calibration (4 gate heads x every body of 1..2 instructions over a 14-instruction pool, resp. 4 MEASURE heads x bodies over a 12-instruction pool) next to fixed helper calibrations, applied to 4 programs each; random: 1..5 calibrations over gate names A,B,C and MEASURE (fixed/variable qubits, 0..1 parameters incl. %t, constants, pi; nested calls, DECLAREs, captures into the formal target and other regions, unbound variables) and 1..5 body instructions. Termination discipline of the generator: an argument that grows (%t+1, 2*%t, -%t) is only passed to a strictly later gate name and a parameter-dependent argument never to an earlier one. Chains: seeded chains of nested calibrations A -> B -> C -> MEASURE of depth 2..4 with leaf instructions around the nested calls and an optional DECLARE at a random level. Distinct by program text; non-trivial = at least one body instruction has a matching calibration.",
+        "corpus (pinned quil-rs source-map test, known-class witnesses); exhaustive: one calibration (4 gate heads x every body of 1..2 instructions over a 14-instruction pool, resp. 4 MEASURE heads x bodies over a 12-instruction pool) next to fixed helper calibrations, applied to 4 programs each; random: 1..5 calibrations over gate names A,B,C and MEASURE (fixed/variable qubits, 0..1 parameters incl. %t, constants, pi; nested calls, DECLAREs, captures into the formal target and other regions, unbound variables) and 1..5 body instructions. Termination discipline of the generator: an argument that grows (%t+1, 2*%t, -%t) is only passed to a strictly later gate name and a parameter-dependent argument never to an earlier one. Multi-parameter exhaustive scope: calibrations U and V of arity 2 and 3 with every literal/variable pattern (distinct variable names, literal i+1 at position i), bodies using every variable in a frame instruction, an unmatched gate and a nested call passing the parameters in reverse order, applied to pairwise distinct arguments in matching and rotated order; the random stream also uses 0..3 parameters with mixed patterns. Chains: seeded chains of nested calibrations A -> B -> C -> MEASURE of depth 2..4 with leaf instructions around the nested calls and an optional DECLARE at a random level. Distinct by program text; non-trivial = at least one body instruction has a matching calibration.",
         true,
         serde_json::json!({"corpus": corpus, "exhaustive_cases": exhaustive_cases, "random_cases": nrand, "chain_cases": nchain, "mutant": mutant()}),
     );
